@@ -36,12 +36,14 @@ Inductive plan : Type :=
 | PMap (s : schema) (exprs : list expr) (src : plan)
 | PUnnest (s : schema) (field : name) (src : plan)
 | POst (s : schema) (keys : list expr) (dirs : list Z) (limit : option expr) (src : plan)   (* OrderSensitiveTransform *)
-| PTvf (s : schema) (fname : name) (args : list (name * tvfarg)).
+| PTvf (s : schema) (fname : name) (args : list (name * tvfarg))
+(* a table valued function with exactly one TABLE argument (max_diff_watermark, tumble): targ is its name *)
+| PTvfT (s : schema) (fname targ : name) (args : list (name * tvfarg)) (src : plan).
 
 Definition schema_of (p : plan) : schema :=
   match p with
   | PDatasource s _ _ _ _ _ | PDistinct s _ | PFilter s _ _ | PGroupBy s _ _ _ _ _ _ | PStreamJoin s _ _ _ _
-  | PLookupJoin s _ _ | PMap s _ _ | PUnnest s _ _ | POst s _ _ _ _ | PTvf s _ _ => s
+  | PLookupJoin s _ _ | PMap s _ _ | PUnnest s _ _ | POst s _ _ _ _ | PTvf s _ _ | PTvfT s _ _ _ _ => s
   end.
 Definition fields_of (p : plan) : list name := sf (schema_of p).
 
@@ -87,6 +89,8 @@ Fixpoint plan_eqb (a b : plan) {struct a} : bool :=
   | POst s k d li x, POst s' k' d' li' x' =>
       schema_eqb s s' && list_eqb expr_eqb k k' && list_eqb Z.eqb d d' && opt_eqb expr_eqb li li' && plan_eqb x x'
   | PTvf s f a, PTvf s' f' a' => schema_eqb s s' && name_eqb f f' && list_eqb (pair_eqb name_eqb tvfarg_eqb) a a'
+  | PTvfT s f ta a x, PTvfT s' f' ta' a' x' =>
+      schema_eqb s s' && name_eqb f f' && name_eqb ta ta' && list_eqb (pair_eqb name_eqb tvfarg_eqb) a a' && plan_eqb x x'
   | _, _ => false
   end.
 
@@ -185,7 +189,9 @@ Section Den.
   Variable key_eqb : list value -> list value -> bool.     (* equality of group keys *)
   Variable distinct_sel : list row -> list nat.            (* which input rows (by position) DISTINCT emits *)
   Variable ost_sel : list (list value) -> list Z -> option value -> list nat.  (* ORDER BY keys, directions, LIMIT -> positions *)
-  Variable tvf_sem : name -> list (name * value) -> list (name * name) -> list row.
+  (* a table valued function: expression arguments, descriptors, and (when it has a TABLE argument) the schema of
+     that table — tumble reads its Schema.TimeField — and its rows *)
+  Variable tvf_sem : name -> list (name * value) -> list (name * name) -> option (schema * list row) -> list row.
 
   Fixpoint eval (e : expr) (env : venv) {struct e} : value :=
     match e with
@@ -253,7 +259,10 @@ Section Den.
           select (ost_sel (map (fun r => evals keys ((fs, r) :: env)) rows) dirs
                           (option_map (fun e => eval e env) limit)) rows
       | PTvf s f args =>
-          filter (fun r => Nat.eqb (length r) (length (sf s))) (tvf_sem f (tvf_arg_vals args env) (tvf_arg_descs args))
+          filter (fun r => Nat.eqb (length r) (length (sf s))) (tvf_sem f (tvf_arg_vals args env) (tvf_arg_descs args) None)
+      | PTvfT s f _ args src =>
+          filter (fun r => Nat.eqb (length r) (length (sf s)))
+                 (tvf_sem f (tvf_arg_vals args env) (tvf_arg_descs args) (Some (schema_of src, den_gen src env)))
       end.
   End Join.
 
@@ -284,6 +293,7 @@ Fixpoint shapeb (p : plan) : bool :=
   match p with
   | PDatasource _ _ _ _ policy _ => policy =? 0   (* a datasource that rejects push-down: every one in the tree *)
   | PTvf _ _ _ => true
+  | PTvfT _ _ _ _ src => shapeb src
   | PDistinct s src => schema_eqb s (schema_of src) && shapeb src
   | PFilter s _ src => schema_eqb s (schema_of src) && shapeb src
   | PGroupBy s keys aggs aggargs _ _ src =>
@@ -318,6 +328,8 @@ Fixpoint resolves_planb (scope : list (list name)) (p : plan) : bool :=
       forallb (resolves (fields_of src :: scope)) keys &&
       match limit with Some e => resolves scope e | None => true end && resolves_planb scope src
   | PTvf _ _ args => forallb (fun a => match snd a with TAExpr e => resolves scope e | TADesc _ => true end) args
+  | PTvfT _ _ _ args src =>
+      forallb (fun a => match snd a with TAExpr e => resolves scope e | TADesc _ => true end) args && resolves_planb scope src
   end.
 Definition wf_planb (scope : list (list name)) (p : plan) : bool := shapeb p && resolves_planb scope p.
 Definition wf_plan (p : plan) : Prop := wf_planb [] p = true.
